@@ -33,6 +33,17 @@ T = {
  "C13-a": ("compio-io/tests/seed_c13_a.rs", NX + " -E 'package(compio-io) & binary(seed_c13_a)'", [("ws-frame", "c13", [])]),
  "C13-b": ("compio-io/tests/seed_c13_b.rs", NX + " -E 'package(compio-io) & binary(seed_c13_b)'", [("ws-frame", "c13", [])]),
 }
+# round 2 (variant c): the demonstration file that is run when it is not demo.rs
+DEMO_SRC = {"C06-c": "demo_stress.rs"}
+T.update({
+ "C01-c": ("compio-driver/tests/pool_teardown.rs", "cargo test --offline -p compio-driver --features polling --test pool_teardown", [("ws-driver", "drvlab", ["C01"]), ("ws-net", "c07", [])]),
+ "C02-c": ("compio-driver/tests/pool_completion_with_readiness.rs", "cargo test -p compio-driver --features polling --offline --test pool_completion_with_readiness", [("ws-driver", "drvlab", ["C02"])]),
+ "C05-c": ("compio-driver/tests/c05_cancel_starved.rs", "cargo test -p compio-driver --features polling --offline --test c05_cancel_starved", [("ws-driver", "drvlab", ["C05"]), ("ws-driver", "rtlab", [])]),
+ "C06-c": ("compio-driver/tests/fd_sync_drop_race.rs", "cargo test -p compio-driver --features sync --offline --test fd_sync_drop_race", [("ws-sched", "c06b", []), ("ws-net", "c06a", [])]),
+ "C07-c": ("compio-driver/tests/buffer_pool_late_multishot.rs", "cargo test -p compio-driver --offline --test buffer_pool_late_multishot", [("ws-net", "c07", [])]),
+ "C12-c": ("compio-io/tests/compat_waker_migration.rs", "cargo test -p compio-io --features compat --offline --test compat_waker_migration", [("ws-io", "c12", [])]),
+ "C16-c": ("compio-quic/tests/open_wait_wakeups.rs", NX + " --test open_wait_wakeups -E 'package(compio-quic)'", [("ws-proto", "c16", [])]),
+})
 EXTRA = "/tmp/seed/confirm_table.json"   # further entries added later: {"C17-a": [demo_path, cmd, [[ws,bin,[args]]]]}
 if os.path.exists(EXTRA):
     for k, v in json.load(open(EXTRA)).items():
@@ -51,12 +62,12 @@ def main():
     pid, var = sys.argv[1], sys.argv[2]
     key = f"{pid}-{var}"
     demo_rel, demo_cmd, checks = T[key]
-    src = f"/tmp/seed/out-{pid}/{var}"
+    src = f"/tmp/seed/out-{pid}/{var}" if var in ("a", "b") else f"/tmp/seed/out2-{pid}/{var}"   # round 2 = variant c
     head = subprocess.run(["git", "-C", "/repo", "rev-parse", "--short", "HEAD"], capture_output=True, text=True).stdout.strip()
     sh("git checkout -q -- . && git clean -qfd -e target && git checkout -q --detach " + head)
     meta = {"id": key, "property": pid, "repo_head": head, "demo_path": demo_rel, "demo_cmd": demo_cmd, "steps": {}}
     os.makedirs(os.path.dirname(os.path.join(WT, demo_rel)), exist_ok=True)
-    shutil.copy(os.path.join(src, "demo.rs"), os.path.join(WT, demo_rel))
+    shutil.copy(os.path.join(src, DEMO_SRC.get(key, "demo.rs")), os.path.join(WT, demo_rel))
     rc, out, dt = sh(demo_cmd)
     meta["steps"]["demo_without_patch"] = {"exit": rc, "secs": round(dt), "tail": out[-600:]}
     print(key, "demo without patch: exit", rc, flush=True)
